@@ -1,5 +1,6 @@
 import Lean.Data.Json
 import Pysmi.Model.Index
+import Pysmi.Model.Compile
 /-!
 Line-protocol driver: one JSON object per input line, one JSON value per output line.
 Imports only the import-free model files and `Lean.Data.Json`.
@@ -57,10 +58,119 @@ def opIndex (j : Json) : Except String Json := do
   return Json.mkObj [("identity", jPairs jStrs r.identity), ("enterprise", jPairs jStrs r.enterprise),
     ("compliance", jPairs jStrs r.compliance), ("oids", jPairs jStrs r.oids)]
 
+/-! ### op: compile -/
+namespace C
+open Pysmi.Compile
+
+def getNat (j : Json) : Except String Nat := j.getNat?
+def getInt (j : Json) : Except String Int := j.getInt?
+def getBool (j : Json) : Except String Bool := j.getBool?
+
+/-- table `[[key, ans], …]` → function with default -/
+def table {α} (f : Json → Except String α) (dflt : α) (j : Json) : Except String (Nat → α) := do
+  let rows ← getList (fun p => do
+    match (← p.getArr?).toList with
+    | [k, v] => return (← getNat k, ← f v)
+    | _ => throw "expected [key, value]") j
+  return fun k => match rows.find? (·.1 == k) with
+    | some r => r.2
+    | none => dflt
+
+def srcAns (j : Json) : Except String SrcAns :=
+  match j with
+  | .str "nf" => pure .notFound
+  | .str "err" => pure .error
+  | .arr #[.str "ok", a, m, t] => do return .ok (← getNat a) (← getInt m) (← getNat t)
+  | _ => throw "bad SrcAns"
+def parseAns (j : Json) : Except String ParseAns :=
+  match j with
+  | .str "err" => pure .error
+  | .arr #[.str "trees", ts] => do return .trees (← getList getNat ts)
+  | _ => throw "bad ParseAns"
+def symAns (j : Json) : Except String SymAns :=
+  match j with
+  | .str "err" => pure .error
+  | .arr #[.str "ok", n, imps] => do return .ok (← getNat n) (← getList getNat imps)
+  | _ => throw "bad SymAns"
+def genAns (j : Json) : Except String GenAns :=
+  match j with
+  | .str "err" => pure .error
+  | .arr #[.str "ok", d] => do return .ok (← getNat d)
+  | _ => throw "bad GenAns"
+def searchAns (j : Json) : Except String SearchAns :=
+  match j with
+  | .str "nf" => pure .notFound
+  | .str "nm" => pure .notModified
+  | .str "err" => pure .error
+  | .str "ret" => pure .returns
+  | _ => throw "bad SearchAns"
+def borrowAns (j : Json) : Except String BorrowAns :=
+  match j with
+  | .str "err" => pure .error
+  | .arr #[.str "ok", a, m, d] => do return .ok (← getNat a) (← getInt m) (← getNat d)
+  | _ => throw "bad BorrowAns"
+
+def jCall : Call → Json
+  | .get i n => .arr #[.str "get", i, n]
+  | .parse t => .arr #[.str "parse", t]
+  | .sym t => .arr #[.str "sym", t]
+  | .gen t g => .arr #[.str "gen", t, g]
+  | .search i n m r => .arr #[.str "search", i, n, .num (Lean.JsonNumber.fromInt m), r]
+  | .borrow i n g => .arr #[.str "borrow", i, n, g]
+  | .put n d dr => .arr #[.str "put", n, d, dr]
+
+def jErr : Option Err → Json
+  | none => .null
+  | some (.call c) => jCall c
+  | some (.noModule i n) => .arr #[.str "nomodule", i, n]
+
+def jStatus : Status → String
+  | .compiled => "compiled" | .untouched => "untouched" | .failed => "failed"
+  | .unprocessed => "unprocessed" | .missing => "missing" | .borrowed => "borrowed"
+
+def opCompile (j : Json) : Except String Json := do
+  let req ← getList getNat (← j.getObjVal? "req")
+  let oj ← j.getObjVal? "opts"
+  let flag (n : String) (d : Bool) : Except String Bool :=
+    match oj.getObjVal? n with
+    | .ok v => getBool v
+    | .error _ => pure d
+  let o : Opts := { noDeps := ← flag "noDeps" false, rebuild := ← flag "rebuild" false,
+                    dryRun := ← flag "dryRun" false, genTexts := ← flag "genTexts" false,
+                    writeMibs := ← flag "writeMibs" true, ignoreErrors := ← flag "ignoreErrors" false }
+  let fuel ← getNat (← j.getObjVal? "fuel")
+  let sources ← getList (table srcAns .notFound) (← j.getObjVal? "sources")
+  let parse ← table parseAns .error (← j.getObjVal? "parse")
+  let sym ← table symAns .error (← j.getObjVal? "sym")
+  let gen ← table genAns .error (← j.getObjVal? "gen")
+  let searchers ← getList (table searchAns .notFound) (← j.getObjVal? "searchers")
+  let borrowers ← getList (fun b => do
+      let fl ← b.getObjVal? "flavour"
+      let t ← table borrowAns .error (← b.getObjVal? "table")
+      let f : Name → Bool → BorrowAns := fun n g =>
+        match fl with
+        | .bool fb => if fb == g then t n else .error
+        | _ => t n
+      return f) (← j.getObjVal? "borrowers")
+  let put ← table getBool true (← j.getObjVal? "put")
+  let c : Cfg := { sources := sources, parse := parse, sym := sym, gen := fun t _ => gen t,
+                   searchers := searchers.map (fun t => fun n _ _ => t n),
+                   borrowers := borrowers, put := fun n _ _ => put n }
+  match run c req o fuel with
+  | none => return Json.mkObj [("fuel_exhausted", true)]
+  | some out =>
+    return Json.mkObj [
+      ("processed", .arr (out.processed.map (fun (n, e) =>
+          Json.arr #[n, .str (jStatus e.st), jErr e.err,
+                     match e.alias with | none => .null | some a => (a : Json)])).toArray),
+      ("trace", .arr (out.trace.map jCall).toArray)]
+end C
+
 def handle (j : Json) : Except String Json := do
   let op ← (← j.getObjVal? "op").getStr?
   match op with
   | "index" => opIndex j
+  | "compile" => C.opCompile j
   | _ => throw s!"unknown op {op}"
 
 partial def loop (hin hout : IO.FS.Stream) : IO Unit := do
